@@ -51,6 +51,55 @@ def arms_of(stmts):
     return paths
 
 
+def indexed_loop_elements(fn):
+    """a copy of fn in which the element names of `for i, (a, b) in enumerate(zip(A, B))` / `for i, a in enumerate(A)` are written as
+    A[i], B[i] inside the loop body - valid when neither the element names nor the sequences are assigned in the body (p0 and eps are
+    read-only in the stencil loops; the work vector is a separate array)"""
+    from sa.srcmodel import clone
+    fn = clone(fn)
+    for lp in [n for n in ast.walk(fn) if isinstance(n, ast.For)]:
+        it = lp.iter
+        if not (isinstance(it, ast.Call) and isinstance(it.func, ast.Name) and it.func.id == 'enumerate' and len(it.args) == 1 and isinstance(lp.target, ast.Tuple) and len(lp.target.elts) == 2 and
+                isinstance(lp.target.elts[0], ast.Name)):
+            continue
+        idx = lp.target.elts[0].id
+        src, tgt = it.args[0], lp.target.elts[1]
+        if isinstance(src, ast.Call) and isinstance(src.func, ast.Name) and src.func.id == 'zip' and isinstance(tgt, ast.Tuple) and len(tgt.elts) == len(src.args):
+            pairs = list(zip(tgt.elts, src.args))
+        else:
+            pairs = [(tgt, src)]
+        if not all(isinstance(a, ast.Name) and isinstance(b, ast.Name) for a, b in pairs):
+            continue
+        stored = set()
+        for st in lp.body:
+            for x in ast.walk(st):
+                if isinstance(x, ast.Name) and isinstance(x.ctx, (ast.Store, ast.Del)):
+                    stored.add(x.id)
+                if isinstance(x, (ast.Subscript, ast.Attribute)) and isinstance(x.ctx, (ast.Store, ast.Del)):
+                    r_ = x
+                    while isinstance(r_, (ast.Subscript, ast.Attribute)):
+                        r_ = r_.value
+                    if isinstance(r_, ast.Name):
+                        stored.add(r_.id)
+        if any(a.id in stored or b.id in stored for a, b in pairs) or idx in stored:
+            continue
+        mp = {a.id: b.id for a, b in pairs}
+
+        class T(ast.NodeTransformer):
+            def visit_Name(self, n):
+                if isinstance(n.ctx, ast.Load) and n.id in mp:
+                    return ast.copy_location(ast.Subscript(value=ast.Name(id=mp[n.id], ctx=ast.Load()), slice=ast.Name(id=idx, ctx=ast.Load()), ctx=ast.Load()), n)
+                return n
+        lp.body = [T().visit(st) for st in lp.body]
+        for st in lp.body:
+            ast.fix_missing_locations(st)
+    # parents for the rules that walk upwards
+    for n in ast.walk(fn):
+        for c in ast.iter_child_nodes(n):
+            c._parent = n
+    return fn
+
+
 def parse_offset(expr, base, axes_names):
     """pwork[X] = p0[X] + <combination of eps[...]>  ->  (X, Rat offset in the step atoms h_<axis>)
     (the offset normally is k*h_X; a step taken from ANOTHER axis is kept as such and fails the moment conditions)"""
@@ -175,6 +224,8 @@ def check_stencils(rep, prog, m):
 
     gg = prog.func(GOD, 'get_grad')
     rep.saw_function(rel + ':get_grad')
+    gg_orig = gg
+    gg = indexed_loop_elements(gg)
     loops = [n for n in gg.body if isinstance(n, ast.For) and 'pwork' in ast.unparse(n)]
     if len(loops) != 1:
         raise AnalysisError('anchor vanished: the per-parameter loop of get_grad')
@@ -202,7 +253,51 @@ def check_stencils(rep, prog, m):
                 carried.append('arm [%s] leaves pwork displaced by %s' % (' and '.join(conds)[:60], left))
         if result is None:
             raise AnalysisError('an arm of get_grad does not assign grad[ii]')
-        onesided = any(c.startswith('not(') and 'one_sided' in c for c in conds)
+        # the arm taken for a non-zero parameter that is not flagged one-sided is the central one; decided on the conditions' meaning
+        def reachable_central(conds_):
+            def tv(e, two):
+                if isinstance(e, ast.BoolOp):
+                    vs = [tv(v, two) for v in e.values]
+                    if None in vs:
+                        return None
+                    return all(vs) if isinstance(e.op, ast.And) else any(vs)
+                if isinstance(e, ast.UnaryOp) and isinstance(e.op, ast.Not):
+                    v = tv(e.operand, two)
+                    return None if v is None else not v
+                t_ = ast.unparse(e).replace(' ', '')
+                if t_ in ('p0[ii]!=0', '0!=p0[ii]'):
+                    return True
+                if t_ in ('p0[ii]==0', '0==p0[ii]', 'notp0[ii]'):
+                    return False
+                if t_ == 'p0[ii]':
+                    return True
+                if t_ == 'one_sided[ii]':
+                    return False
+                if t_ == 'two_pt_deriv_test':
+                    return two
+                return None
+            for two in (False, True):
+                ok_all = True
+                for c_ in conds_:
+                    neg = c_.startswith('not(') and c_.endswith(')')
+                    try:
+                        e_ = ast.parse(c_[4:-1] if neg else c_, mode='eval').body
+                    except SyntaxError:
+                        return None
+                    v = tv(e_, two)
+                    if v is None:
+                        if 'is None' in c_:
+                            continue
+                        return None
+                    if (not v) if neg else v:
+                        continue
+                    ok_all = False
+                    break
+                if ok_all:
+                    return True
+            return False
+        rc = reachable_central(conds)
+        onesided = (not rc) if rc is not None else any(c.startswith('not(') and 'one_sided' in c for c in conds)
         armname = 'get_grad[%s]' % ' and '.join(c for c in conds if 'is None' not in c)[:80]
         if armname not in seen_arms:
             seen_arms.add(armname)
@@ -220,6 +315,7 @@ def check_stencils(rep, prog, m):
            what='each component is differentiated around p0: no displacement is carried over from the previous parameter')
     rep.ob('R-EXH', 'get_grad arms', n_arms == 3, '%d stencil arms' % n_arms, rel, gg.lineno, what='central, one-sided and optional 3-point arms')
     # arm selection: central only when the parameter is non-zero and not flagged one-sided (else the relative step is 0)
+    gg = gg_orig
     for fn, var in ((he, 'pwork'), (gg, 'p0')):
         for n in own_nodes(fn):
             if isinstance(n, ast.If) and 'one_sided' in ast.unparse(n.test) and '!=' in ast.unparse(n.test):
